@@ -38,7 +38,7 @@ fn run(ctx: &RunCtx) -> Report {
     let salt: Option<Vec<u8>> = if rng.chance(1, 2) { Some(b"s".to_vec()) } else { None };
     let target = krpc::mutable_target(&pk, salt.as_deref());
     // seq patterns with gaps, duplicates and equal-seq-different-value ties
-    let pattern = rng.below(5);
+    let pattern = rng.below(6);
     let values: [&[u8]; 6] = [b"aaa", b"zzz", b"mmm", b"b", b"zz", b"zzzz"];
     let mut items: Vec<Option<Item>> = vec![];
     for i in 0..n {
@@ -52,7 +52,9 @@ fn run(ctx: &RunCtx) -> Report {
                 1 => ((i / 2) as i64 + 1, values[i % 4]),             // pairs of equal seq, different values
                 2 => (7, values[i]),                                  // all equal seq: pure tie-break
                 3 => (if i == 0 { 1000 } else { 1 }, values[i % 2]),  // one maximum among equal low seqs
-                _ => ((i.min(n - 2)) as i64 + 1, values[i.min(n - 2) % 4]), // the maximum delivered twice (identical copies)
+                4 => ((i.min(n - 2)) as i64 + 1, values[i.min(n - 2) % 4]), // the maximum delivered twice (identical copies)
+                5 => (i64::MIN, values[i]),                           // all at the smallest legal seq
+                _ => (EXTREME_SEQS[i % EXTREME_SEQS.len()], values[i % 4]), // boundary seqs, all distinct
             };
             items.push(Some(Item::signed(&key, salt.as_deref(), seq, v)));
             continue;
@@ -62,7 +64,8 @@ fn run(ctx: &RunCtx) -> Report {
             1 => (n - i) as i64 * 3,             // gaps
             2 => rng.range(1, 3) as i64,         // many duplicates / ties
             3 => 7,                              // all equal seq: tie-break on value
-            _ => rng.range(0, 1000) as i64,
+            4 => rng.range(0, 1000) as i64,
+            _ => *rng.pick(EXTREME_SEQS),        // boundary values of the i64 range, negative seqs
         };
         let v = if pattern == 2 || pattern == 3 { values[rng.usize(0, 3)] } else { values[i % 4] };
         if rng.chance(1, 8) {
@@ -283,6 +286,8 @@ fn run(ctx: &RunCtx) -> Report {
     finish(&sim, report)
 }
 
+const EXTREME_SEQS: &[i64] = &[i64::MIN, i64::MAX, -1, 0, i64::MIN + 1, i64::MAX - 1];
+
 struct Enumerated {
     n: usize,
     pattern: u64,
@@ -290,20 +295,20 @@ struct Enumerated {
     sync: bool,
 }
 
-/// g -> (flavour, n in 2..=6, pattern in 0..5, permutation of n) in that nesting order, wrapping around
+/// g -> (flavour, n in 2..=6, pattern in 0..7, permutation of n) in that nesting order, wrapping around
 fn decode_enumerated(g: u64) -> Enumerated {
     let sync = g % 2 == 1;
     let mut c = g / 2;
     let fact = |n: u64| (1..=n).product::<u64>();
-    let total: u64 = (2..=6).map(|n| fact(n) * 5).sum();
+    let total: u64 = (2..=6).map(|n| fact(n) * 7).sum();
     c %= total;
     let mut n = 2u64;
-    while c >= fact(n) * 5 {
-        c -= fact(n) * 5;
+    while c >= fact(n) * 7 {
+        c -= fact(n) * 7;
         n += 1;
     }
-    let pattern = c % 5;
-    let mut code = c / 5;
+    let pattern = c % 7;
+    let mut code = c / 7;
     // Lehmer code -> permutation
     let mut pool: Vec<usize> = (0..n as usize).collect();
     let mut perm = vec![];
@@ -330,7 +335,7 @@ pub fn property() -> Property {
         },
         info: || PropInfo {
             floors: vec![],
-            rule: "one run = 1..8 scripted replicas holding authentic items of one key (seq patterns: ascending, gaps, duplicates, all-equal ties, random), per-replica response delays seeded so arrival orders vary; every third run is enumerated instead: (2..6 items) x (5 seq patterns: distinct, equal-seq pairs, all-equal ties, single maximum, duplicated maximum) x (every arrival permutation) x (async / sync API) decoded from the run index (1 752 x 5 x 2 combinations: all of them in the thorough tier, all permutations of up to 5 items in the quick tier); a real reader calls get_mutable_most_recent (async; sync Dht API through a helper thread in 1/4 of the runs). Expected = max (seq, value) over the items the trace shows delivered in time. Non-trivial = at least two items delivered and the maximum did not arrive first; distinct = hash of the arrival sequence (seq, value) x API flavour".into(),
+            rule: "one run = 1..8 scripted replicas holding authentic items of one key (seq patterns: ascending, gaps, duplicates, all-equal ties, random), per-replica response delays seeded so arrival orders vary; every third run is enumerated instead: (2..6 items) x (7 seq patterns: distinct, equal-seq pairs, all-equal ties, single maximum, duplicated maximum, all at i64::MIN, distinct boundary seqs) x (every arrival permutation) x (async / sync API) decoded from the run index (872 x 7 x 2 combinations: all of them in the thorough tier, all permutations of up to 5 items in the quick tier); a real reader calls get_mutable_most_recent (async; sync Dht API through a helper thread in 1/4 of the runs). Expected = max (seq, value) over the items the trace shows delivered in time. Non-trivial = at least two items delivered and the maximum did not arrive first; distinct = hash of the arrival sequence (seq, value) x API flavour".into(),
             assumptions: vec!["loss-free network, RTT < 500 ms so every reply is in time".into()],
         },
     }
